@@ -1,13 +1,27 @@
 /-
   C09 — async macros are lazy, concurrent within a step, and always complete.
-  What Lean decides here is the *shape* of the async expansion, for every program: one pinned boxed `async move`
-  block containing everything, steps joined by `futures::join!/try_join!` or awaited directly, task-spawning through
-  the `__spawn_tokio` wrapper, no executor/waker/channel constructs of its own.  Progress, wake-up routing and
-  completion are properties of `async`/`.await`, `futures::join!` and tokio, which are not modelled: they are
-  *observed* by K2 on a deterministic executor with manually opened gates and a counting root waker (partial).
+
+  Three layers:
+  1. the *shape* of the async expansion, for every program: one pinned boxed `async move` block containing everything,
+     steps joined by `futures::join!/try_join!` or awaited directly, task-spawning through `__spawn_tokio`;
+  2. `sync_refines` covers `join_async!` / `join_async_spawn!`: under the canonical schedule (every operand polled to
+     completion in turn) the generated code is the reference step loop (`async_canonical`);
+  3. the poll-level model (`Async.lean`: tasks with gated pending points, `join!` = poll every unfinished operand once,
+     the `async` block = steps in sequence) built from the parsed program (`AsyncSpec.lean`), for *every* schedule of
+     gate openings — any order, batches, spurious polls: nothing runs before the first poll, a pending branch never
+     blocks a ready sibling, a pending future waits exactly on closed gates (no lost wake-up), and as soon as it is
+     polled with all gates open it completes with the reference result, having emitted the reference events exactly
+     once each (`join_async_every_schedule`).
+  Trusted: that rustc's `async`/`.await` and futures' `join!`/`try_join!` behave like `Plan.poll`/`pollStep`; K2-async
+  compares real futures on a deterministic executor (gates, counting root waker) and on tokio with the reference.
+  Partial: the schedule theorem is for the non-try async macros without handler; `try_join!` plans are covered by the
+  per-poll theorems (`pollStep_prefix`, `Plan.pending_blocked`, `Plan.poll_allOpen`) but not by schedule independence
+  (which failing branch wins is schedule dependent, as C05 says).
 -/
 import JoinModel.Lemmas.GenFacts
 import JoinModel.Print
+import JoinModel.AsyncSpec
+import JoinModel.Props.Common
 namespace JoinModel.Props.C09
 open JoinModel
 
@@ -24,7 +38,8 @@ theorem all_user_tokens_inside_async (c : Code) (ha : c.kind.isAsync = true) :
 theorem async_step_join (c : Ctx) (k : Nat) (s : StepCode) (h : genStep c k = .ok s) (ha : c.kind.isAsync = true)
     (hj : c.joiner = none) :
     s.form = (if c.activeCount k > 1 then
-        JoinForm.call ((c.fcp.getD []) ++ [pj ':', pu ':', id' (if c.kind.isTry then "try_join" else "join"), pu '!'])
+        JoinForm.futJoin ((c.fcp.getD []) ++ [pj ':', pu ':', id' (if c.kind.isTry then "try_join" else "join"), pu '!'])
+          c.kind.isTry
       else JoinForm.awaitCat) ∧ s.tbs = [] ∧ s.spawnJoin = none := by
   unfold genStep at h
   split at h
@@ -61,5 +76,92 @@ theorem tokio_elem_printed (e : Elem) (hw : e.wrap = .tokio) (hl : e.lazy = fals
 
 /-- later steps start from the previous result wrapped into a future: `async move { r }` -/
 theorem async_step_start (t : Toks) : wrapIntoBlock true t = [id' "async", id' "move", brace t] := rfl
+
+/-! ### 2. canonical schedule -/
+
+/-- `join_async!` / `join_async_spawn!` (and alias): the meaning of the generated code under the canonical schedule is
+    the reference semantics — events and result, for every program, world and size. -/
+theorem async_canonical (σ : World) (parent : Option String) (p : Input) (kind : Kind) (code : Code)
+    (hs : Supported p kind) (_ha : kind.isAsync = true) (hgen : gen p kind = .ok code) :
+    evalCode σ parent code = specRun σ parent p kind := sync_refines σ parent p kind code hs hgen
+
+/-- the theorem is not vacuous: a two-branch, two-step program under `join_async!` is supported and generates code -/
+example :
+    let p : Input := { branches := [⟨none, [⟨.initial, false, .none, [⟨.expr, [.ident "a"]⟩]⟩,
+                                              ⟨.map, true, .none, [⟨.expr, [.ident "f"]⟩]⟩]⟩,
+                                     ⟨none, [⟨.initial, false, .none, [⟨.expr, [.ident "b"]⟩]⟩]⟩] }
+    (gen p ⟨true, false, false⟩).toOption.isSome = true := by decide
+
+/-! ### 3. every schedule -/
+
+/-- no chain of the world panics (a panic ends the future at the poll in which it happens; which one that is, is
+    schedule dependent) -/
+def NoChainPanic (σ : World) : Prop := ∀ b k prev caps vis, isPanicUR (σ.chain b k prev caps vis).res = false
+
+theorem planLoop_nostop (c : SpecCfg) (pend : Pend) (hnp : NoChainPanic c.σ) (htry : c.kind.isTry = false) (rem k : Nat)
+    (vals : List (Option Value)) :
+    (planLoop c pend rem k vals).2.NoStop := by
+  induction rem generalizing k vals with
+  | zero =>
+    unfold planLoop
+    simp only
+    split
+    · exact .done _
+    · exact .done _
+    · refine .step _ _ _ _ _ ?_ (fun _ => .done _)
+      intro t ht
+      obtain ⟨bc, _, rfl⟩ := List.mem_map.mp ht
+      simp only [stopOf, htry, Bool.false_and, Bool.or_false]
+      exact hnp _ _ _ _ _
+  | succ rem ih =>
+    unfold planLoop
+    simp only
+    split
+    · exact .done _
+    · exact .done _
+    · refine .step _ _ _ _ _ ?_ (fun _ => ih _ _)
+      intro t ht
+      obtain ⟨bc, _, rfl⟩ := List.mem_map.mp ht
+      simp only [stopOf, htry, Bool.false_and, Bool.or_false]
+      exact hnp _ _ _ _ _
+
+/-- **Every schedule.**  `join_async!{ p }` without a handler, in a world whose chains do not panic, with arbitrary
+    pending points `pend` inside the chains: whatever gates are open at the successive polls `gs` (any order, any
+    batches, spurious polls), once the future is polled with every gate open it is complete; its result is the result of
+    the generated code, and the events it has emitted over all polls are the generated code's events, each exactly once. -/
+theorem join_async_every_schedule (σ : World) (parent : Option String) (p : Input) (kind : Kind) (code : Code)
+    (hs : Supported p kind) (ha : kind.isAsync = true) (hh : p.handler = none) (hgen : gen p kind = .ok code)
+    (hnp : NoChainPanic σ) (pend : Pend) (gs : List Gates) :
+    let c := cfgFor σ parent p kind
+    let pl := planLoop c pend (c.maxDepth - 1) 0 (List.replicate c.n none)
+    (pl.2.run (gs ++ [allOpen])).2 = .done (loopOf σ parent p kind).res ∧
+    (pl.1 ++ (pl.2.run (gs ++ [allOpen])).1).Perm (evalCode σ parent code).trace := by
+  intro c pl
+  have htry : kind.isTry = false := hs.asyncNotTry ha
+  have hth : c.kind.threads = false := by
+    show kind.threads = false
+    simp [Kind.threads, ha]
+  obtain ⟨c1, c2⟩ := planLoop_canon c pend hth htry (c.maxDepth - 1) 0 (List.replicate c.n none)
+  obtain ⟨r1, r2⟩ := Plan.run_complete gs pl.2 (planLoop_nostop c pend hnp htry _ _ _)
+  refine ⟨by rw [r1, c2]; rfl, ?_⟩
+  rw [sync_refines σ parent p kind code hs hgen, (run_trace_no_handler σ parent p kind hh).1]
+  show (pl.1 ++ (pl.2.run (gs ++ [allOpen])).1).Perm (specLoop c (c.maxDepth - 1) 0 (List.replicate c.n none)).trace
+  rw [← c1]
+  exact List.Perm.append_left _ r2
+
+/-- **Laziness** (model): before the first poll nothing has been emitted; in particular the block captures of step 0
+    (`pl.1`) belong to the first poll, not to the creation of the future. -/
+theorem nothing_before_first_poll (c : SpecCfg) (pend : Pend) (rem : Nat) (vals : List (Option Value)) :
+    ((planLoop c pend rem 0 vals).2.run []).1 = [] := rfl
+
+/-- **A pending branch never blocks a ready sibling**: in one poll of a step of a `join!` plan every operand advances
+    exactly as far as its own gates allow. -/
+theorem siblings_independent (op : Gates) (ts : List (Task MEv (UR Value))) :
+    (pollStep op (fun _ => false) ts).2.1 = ts.map (fun t => (t.poll op).2) := (pollStep_join op ts).1
+
+/-- **No lost wake-up**: a future left pending by a poll waits on at least one gate, and every gate it waits on is
+    closed — for `join!` and `try_join!` plans alike. -/
+theorem pending_only_on_closed_gates (op : Gates) (pl : Plan MEv (UR Value) (Res Fin)) (h : (pl.poll op).2.isDone = false) :
+    (pl.poll op).2.wakeSet ≠ [] ∧ ∀ g ∈ (pl.poll op).2.wakeSet, op g = false := Plan.pending_blocked op pl h
 
 end JoinModel.Props.C09
